@@ -22,7 +22,10 @@ def _keylock(k):
 
 
 def chip_defs(ob):
-    return ['-D' + d for d in ob.ir_opts.get('chip_defs', [])]
+    r = ['-D' + d for d in ob.ir_opts.get('chip_defs', [])]
+    for inc in ob.ir_opts.get('force_include', []):
+        r += ['-include', os.path.join(R.HARN, inc)]
+    return r
 
 
 def compile_tu(run, src, flags, tag):
